@@ -220,6 +220,28 @@ theorem C04_end_to_end_varint (max : Int) (hmax : max > 0) (fin : RErr) (ps : Li
   apply C04_stream_varint max hmax fin ps cs hadm
   rw [hflat, hconn, hops, hwire, hacc]
 
+/-- instance: the length-field codec with its built-in encoder or a matching stand-alone prepender; each frame
+    is what `encodePrep` emits for some admissible body, each message that frame minus the stripped bytes -/
+theorem C04_end_to_end_lf (c : LFCfg) (pc : PrepCfg) (fin : RErr) (frames : List (Bytes × Bytes))
+    (hv : c.valid = true) (hoff : c.offset = 0) (hbig : pc.big = c.big) (hfl : pc.fieldLen = c.fieldLen)
+    (hadj : -(2^62) < c.adj ∧ c.adj < 2^62) (hmax62 : c.max < 2^62)
+    (hpair : c.adj + pc.adj + (if pc.incl then c.fieldLen else 0) = 0)
+    (hframes : ∀ fm ∈ frames, ∃ body, encodePrep pc body = some fm.1 ∧ fm.2 = fm.1.drop c.strip.toNat ∧
+        c.fieldLen + body.length ≤ c.max ∧ c.strip ≤ c.fieldLen + body.length)
+    (sync : Bool) (cap : Nat) (untilW : Bool) (acts : List (Chan.Act Bytes)) (s : Chan.St Bytes)
+    (hr : Chan.run (NettyVerif.C02.init sync cap untilW) acts = some s)
+    (hb : s.broken = false) (hq : s.quiescent = true)
+    (hacc : s.accepted = frames.map (·.1))
+    (r : Transport.Route) (hroute : r ∈ Gen.Routing.routes) (size : Nat) (ops : List Transport.Op)
+    (hops : Transport.written ops = s.wire.flatten)
+    (cs : List Bytes) (hflat : cs.flatten = (Transport.run r { size := size } (ops ++ [.flush])).conn) :
+    ∃ rest, readLoop true (.lf c) (frames.length + 1) cs fin = (frames.map (·.2), some rest) := by
+  apply C04_end_to_end (.lf c) (by simpa [Codec.valid] using hv) fin frames _ sync cap untilW acts s hr hb hq hacc r hroute size ops hops cs hflat
+  intro fm hfm cs' tl hfl'
+  obtain ⟨body, henc, hmsg, hmax, hstrip⟩ := hframes fm hfm
+  rw [hmsg]
+  exact C04_lf_roundtrip c pc body fm.1 tl cs' fin hv hoff hbig hfl hadj hmax62 hpair henc hmax hstrip hfl'
+
 -- premises satisfiable: a queued channel (capacity 2) that accepted one varint frame and came to rest
 example : (Chan.run (NettyVerif.C02.init (α := Bytes) false 2 true)
       [.beginWrite, .enqueue [2, 1, 7], .casWriter, .exec, .sndRecv, .sndDefault, .sndWritev true, .sndPut, .sndLen1,
@@ -246,3 +268,4 @@ end NettyVerif.C04
 #print axioms NettyVerif.C04.C04_guards_varint_write
 #print axioms NettyVerif.C04.C04_end_to_end
 #print axioms NettyVerif.C04.C04_end_to_end_varint
+#print axioms NettyVerif.C04.C04_end_to_end_lf
